@@ -84,6 +84,10 @@ pub enum Reader {
     /// serialise one resource / dataset through `ToJson::to_json_string` with its own configuration
     Resource(String),
     DataSet(String),
+    /// write one resource / dataset to a file of its own through `ToJson::to_json_file` with its own configuration
+    /// (the store is not changed: the member is read, a scratch file is written); the result is the file's content
+    ResourceFile(String),
+    DataSetFile(String),
     /// pure readers
     FindText(String),
     Query(String),
@@ -91,13 +95,15 @@ pub enum Reader {
 
 impl Reader {
     pub fn name(&self) -> String {
-        match self { Reader::Store => "store".into(), Reader::Resource(r) => format!("res:{}", r), Reader::DataSet(s) => format!("set:{}", s), Reader::FindText(t) => format!("find:{}", t), Reader::Query(_) => "query".into() }
+        match self { Reader::Store => "store".into(), Reader::Resource(r) => format!("res:{}", r), Reader::DataSet(s) => format!("set:{}", s), Reader::ResourceFile(r) => format!("resfile:{}", r), Reader::DataSetFile(s) => format!("setfile:{}", s), Reader::FindText(t) => format!("find:{}", t), Reader::Query(_) => "query".into() }
     }
     pub fn run(&self, store: &AnnotationStore) -> String {
         match self {
             Reader::Store => store.to_json_string(store.config()).unwrap_or_else(|e| format!("error: {}", e)),
             Reader::Resource(id) => { let r = store.resource(id.as_str()).expect("resource"); ToJson::to_json_string(r.as_ref(), r.as_ref().config()).unwrap_or_else(|e| format!("error: {}", e)) }
             Reader::DataSet(id) => { let s = store.dataset(id.as_str()).expect("dataset"); ToJson::to_json_string(s.as_ref(), s.as_ref().config()).unwrap_or_else(|e| format!("error: {}", e)) }
+            Reader::ResourceFile(id) => { let r = store.resource(id.as_str()).expect("resource"); let f = scratch_dir(7000).join(format!("member-{}-{:?}.json", id, std::thread::current().id())); let w = ToJson::to_json_file(r.as_ref(), f.to_str().unwrap(), r.as_ref().config()); let t = std::fs::read_to_string(&f).unwrap_or_default(); std::fs::remove_file(&f).ok(); match w { Ok(_) => t, Err(e) => format!("error: {}", e) } }
+            Reader::DataSetFile(id) => { let s = store.dataset(id.as_str()).expect("dataset"); let f = scratch_dir(7000).join(format!("member-{}-{:?}.json", id, std::thread::current().id())); let w = ToJson::to_json_file(s.as_ref(), f.to_str().unwrap(), s.as_ref().config()); let t = std::fs::read_to_string(&f).unwrap_or_default(); std::fs::remove_file(&f).ok(); match w { Ok(_) => t, Err(e) => format!("error: {}", e) } }
             Reader::FindText(t) => { let mut v: Vec<String> = vec![]; for r in store.resources() { for m in r.find_text(t.as_str()) { v.push(format!("{}:{}-{}", r.id().unwrap_or("?"), m.begin(), m.end())); } } v.join(",") }
             Reader::Query(q) => { match Query::try_from(q.as_str()) { Ok(query) => match store.query(query) { Ok(it) => format!("{} results", it.count()), Err(e) => format!("error: {}", e) }, Err(e) => format!("error: {}", e) } }
         }
@@ -182,7 +188,7 @@ impl Scenario {
             let list = |v: &str| -> Vec<usize> { v.split('+').filter_map(|x| x.parse().ok()).collect() };
             match k {
                 "nres" => s.nres = v.parse().ok()?, "sres" => s.standoff_res = list(v), "nsets" => s.nsets = v.parse().ok()?, "ssets" => s.standoff_sets = list(v), "settled" => s.settled = v == "1",
-                "readers" => s.readers = v.split(',').filter_map(|r| match r.split_once(':') { None if r == "store" => Some(Reader::Store), Some(("res", id)) => Some(Reader::Resource(id.into())), Some(("set", id)) => Some(Reader::DataSet(id.into())), Some(("find", t)) => Some(Reader::FindText(t.into())), _ if r == "query" => Some(Reader::Query("SELECT ANNOTATION ?a WHERE DATA \"s0\" \"k\" = \"v\";".into())), _ => None }).collect(),
+                "readers" => s.readers = v.split(',').filter_map(|r| match r.split_once(':') { None if r == "store" => Some(Reader::Store), Some(("res", id)) => Some(Reader::Resource(id.into())), Some(("set", id)) => Some(Reader::DataSet(id.into())), Some(("resfile", id)) => Some(Reader::ResourceFile(id.into())), Some(("setfile", id)) => Some(Reader::DataSetFile(id.into())), Some(("find", t)) => Some(Reader::FindText(t.into())), _ if r == "query" => Some(Reader::Query("SELECT ANNOTATION ?a WHERE DATA \"s0\" \"k\" = \"v\";".into())), _ => None }).collect(),
                 _ => {}
             }
         }
@@ -196,7 +202,8 @@ fn cc_line(sc: &Scenario, trace: &[(usize, &'static str)]) -> String {
     let progs: Vec<String> = sc.readers.iter().map(|r| match r {
         Reader::Store => "S".to_string(),
         Reader::Resource(id) => format!("M{}", id[1..].parse::<usize>().unwrap_or(0)),
-        Reader::DataSet(id) => format!("M{}", sc.nres + id[1..].parse::<usize>().unwrap_or(0)),
+        Reader::DataSet(id) | Reader::DataSetFile(id) => format!("M{}", sc.nres + id[1..].parse::<usize>().unwrap_or(0)),
+        Reader::ResourceFile(id) => format!("M{}", id[1..].parse::<usize>().unwrap_or(0)),
         _ => "P".to_string(),
     }).collect();
     let tr: Vec<String> = trace.iter().filter(|(_, p)| p.starts_with("mode:")).map(|(t, _)| t.to_string()).collect();
@@ -232,14 +239,14 @@ pub fn check_scenario(rep: &mut Report, sc: &Scenario, limit: usize, rng: &mut R
             for (t, (o, a)) in outs.iter().zip(alone.iter()).enumerate() {
                 if o != a {
                     let ctx = vec![sc.line(), format!("ccsched points={} schedule={}", points.join("+"), sched_s)];
-                    let what = if o == "panic" { "panic".to_string() } else { format!("{}-differs", match sc.readers[t] { Reader::Store => "store-serialisation", Reader::Resource(_) => "resource-serialisation", Reader::DataSet(_) => "dataset-serialisation", _ => "pure-reader" }) };
-                    rep.fail(if o == "panic" { "panic" } else { "oracle" }, &format!("C20/{}/with-{}", what, sc.readers.iter().enumerate().filter(|(i, _)| *i != t).map(|(_, r)| match r { Reader::Store => "store", Reader::Resource(_) => "resource", Reader::DataSet(_) => "dataset", _ => "pure" }).collect::<Vec<_>>().join("+")), ctx, &decisions(a), &decisions(o));
+                    let what = if o == "panic" { "panic".to_string() } else { format!("{}-differs", match sc.readers[t] { Reader::Store => "store-serialisation", Reader::Resource(_) => "resource-serialisation", Reader::DataSet(_) => "dataset-serialisation", Reader::ResourceFile(_) => "resource-file", Reader::DataSetFile(_) => "dataset-file", _ => "pure-reader" }) };
+                    rep.fail(if o == "panic" { "panic" } else { "oracle" }, &format!("C20/{}/with-{}", what, sc.readers.iter().enumerate().filter(|(i, _)| *i != t).map(|(_, r)| match r { Reader::Store => "store", Reader::Resource(_) => "resource", Reader::DataSet(_) => "dataset", Reader::ResourceFile(_) => "resource-file", Reader::DataSetFile(_) => "dataset-file", _ => "pure" }).collect::<Vec<_>>().join("+")), ctx, &decisions(a), &decisions(o));
                 }
             }
             // model: serialisation decisions per reader under this trace (mode points only)
             if points.len() == 1 {
                 let line = cc_line(sc, &trace);
-                let answer: Vec<String> = sc.readers.iter().zip(outs.iter()).map(|(r, o)| match r { Reader::Store | Reader::Resource(_) | Reader::DataSet(_) => decisions(o).split(' ').map(|d| if d.ends_with("include") { "i" } else { "n" }).collect::<Vec<_>>().join(""), _ => "-".to_string() }).collect();
+                let answer: Vec<String> = sc.readers.iter().zip(outs.iter()).map(|(r, o)| match r { Reader::Store | Reader::Resource(_) | Reader::DataSet(_) | Reader::ResourceFile(_) | Reader::DataSetFile(_) => decisions(o).split(' ').map(|d| if d.ends_with("include") { "i" } else { "n" }).collect::<Vec<_>>().join(""), _ => "-".to_string() }).collect();
                 rep.model_case_ctx(vec![sc.line(), format!("ccsched points=mode: schedule={}", sched_s)], vec![line], vec![answer.join(",")], "concurrent");
             }
         }
@@ -259,6 +266,10 @@ pub fn scenarios(thorough: bool) -> Vec<Scenario> {
         Scenario { name: "unsettled store|resource".into(), nres: 2, standoff_res: vec![1], nsets: 0, standoff_sets: vec![], settled: false, readers: vec![Reader::Store, Reader::Resource("r1".into())] },
         Scenario { name: "store|resource|dataset".into(), nres: 2, standoff_res: vec![0, 1], nsets: 2, standoff_sets: vec![1], settled: true, readers: vec![Reader::Store, Reader::Resource("r1".into()), Reader::DataSet("s1".into())] },
     ];
+    // a member written to a file of its own while the store is serialised
+    v.push(Scenario { name: "store|dataset-file".into(), nres: 1, standoff_res: vec![0], nsets: 2, standoff_sets: vec![1], settled: true, readers: vec![Reader::Store, Reader::DataSetFile("s1".into())] });
+    v.push(Scenario { name: "store|resource-file".into(), nres: 2, standoff_res: vec![1], nsets: 1, standoff_sets: vec![0], settled: true, readers: vec![Reader::Store, Reader::ResourceFile("r1".into())] });
+    v.push(Scenario { name: "dataset|dataset-file".into(), nres: 1, standoff_res: vec![], nsets: 2, standoff_sets: vec![0, 1], settled: true, readers: vec![Reader::DataSet("s0".into()), Reader::DataSetFile("s1".into())] });
     if thorough {
         v.push(Scenario { name: "store|store|resource".into(), nres: 3, standoff_res: vec![0, 2], nsets: 1, standoff_sets: vec![0], settled: true, readers: vec![Reader::Store, Reader::Store, Reader::Resource("r2".into())] });
         v.push(Scenario { name: "big store|resource".into(), nres: 4, standoff_res: vec![0, 1, 2, 3], nsets: 2, standoff_sets: vec![0, 1], settled: true, readers: vec![Reader::Store, Reader::Resource("r3".into())] });
